@@ -11,7 +11,9 @@ CONSTANTS Keys, Vals, MaxOps, MaxGen, MaxWal,
           WalRemoveAnyOrder,   \* TRUE = RemoveAll(wal) unlinks in any order (S12)
           RecFinishRenameFirst, \* TRUE = recovery renames merged table before deleting inputs (code as read)
           Async,               \* TRUE = asynchronous WAL: appends go to a write buffer that reaches the file later, in pieces (C13)
-          RotateDropsBuffer    \* TRUE = a rotation does not write the buffered appends out first (negative switch for the async model)
+          RotateDropsBuffer,   \* TRUE = a rotation does not write the buffered appends out first (negative switch for the async model)
+          RotateInflight       \* TRUE = a mutation may rotate between its log append and its memstore update (negative switch: the record is in the
+                               \*        old file, which the flush of the old store unlinks, the entry in the new store, which only the new file covers)
 NONE == "none"
 TOMB == "tomb"
 Empty == [k \in Keys |-> NONE]
@@ -104,7 +106,7 @@ BufFlush == /\ Async /\ mode = "run" /\ wbuf # <<>>
                                         /\ wbuf' = SubSeq(wbuf, n + 1, Len(wbuf))
             /\ UNCHANGED <<cur, tdirs, cdir, mem, imm, immWal, tables, gen, fpc, cpc, csel, mode, rpc, rmem, model, nops, inflight, ncrash, applied, base, rotn>>
 \* forced rotation in lock-step with the memstore (needs flusher idle: unbuffered channel)
-Rotate == /\ mode = "run" /\ inflight = NoOp /\ fpc = "idle" /\ mem # Empty /\ cur < MaxWal
+Rotate == /\ mode = "run" /\ (inflight = NoOp \/ RotateInflight) /\ fpc = "idle" /\ mem # Empty /\ cur < MaxWal
           \* closing the old file writes its buffer out
           /\ wals' = [wals EXCEPT ![cur] = IF RotateDropsBuffer THEN @ ELSE @ \o wbuf] @@ ((cur + 1) :> <<>>) /\ cur' = cur + 1
           /\ wbuf' = <<>> /\ rotn' = Len(applied)
